@@ -40,14 +40,17 @@ fn collapse<T>(o: &mut Option<Option<T>>) {
 /// The description of a type in the type language of the Lean model (`SaModel.Roundtrip.Ty`,
 /// lean/SaModel/Roundtrip/Types.lean; wire form read by lean/Driver/TyJson.lean):
 ///   {"t": "bool" | "i8" … "u64" | "f32" | "f64" | "char" | "str" | "bytes" | "unit"}
+///   {"t": "str_ref" | "cow_str" | "bytes_ref" | "bytes_seq"}   the BORROWED leaves (`Prim.strRef` …, see below)
 ///   {"t": "option" | "vec", "a": T}   {"t": "tuple", "a": [T…]}   {"t": "map", "k": T, "v": T}
 ///   {"t": "struct", "n": name, "f": [[field name, skip_serializing_if = Option::is_none, T]…]}
 ///   {"t": "tuple_struct", "n": name, "a": [T…]}   {"t": "newtype", "n": name, "a": T}   {"t": "unit_struct", "n": name}
 ///   {"t": "enum", "n": name, "v": [{"n": variant name, "k": "unit" | "newtype" | "tuple" | "struct", "a": …}…]}
-/// A node may carry `"target": "str" | "bytes"`: the Deserialize side of that position is a BORROWED target (`&'de str`,
-/// `&'de [u8]`), which the model's `toTarget` does not describe (outside the grammar of the C04 theorems; counted).
-/// A node may carry `"de": T'`: its Deserialize side (what `from_type` and the reader see) is another type than its
-/// Serialize side (`&'de [u8]` without serde_bytes).
+/// Borrowed leaves (the target points into the arrays): `str_ref` = `&'de str` (`serialize_str` / `deserialize_str`, the
+/// visitor takes `visit_borrowed_str` only), `cow_str` = `#[serde(borrow)] Cow<'de, str>` (`deserialize_str`, borrows when it
+/// can), `bytes_ref` = `#[serde(borrow, with = "serde_bytes")] &'de [u8]` (`serialize_bytes` / `deserialize_bytes`, borrowed
+/// only), `bytes_seq` = `&'de [u8]` with the std impls — ASYMMETRIC: serialized as a SEQUENCE of u8, deserialized with
+/// `deserialize_bytes` (so `from_type` traces LargeBinary).  The model describes all four (`ser`, `toTraceTy`, `toTarget`,
+/// `dvalOf` of lean/SaModel/Roundtrip/{Types,Bridge}.lean); they are inside the grammar of the C04 theorems.
 /// Written ONCE per zoo type, by hand, beside the type; std types compose through the generic impls below.  The driver
 /// checks on every case that the model's `ser` / `toTraceTy` / `toTarget` evaluated on this description reproduce what
 /// the REAL derived impls did (recorded call stream, `from_type`, the `deserialize_*` / `visit_*` call log).
@@ -96,7 +99,15 @@ fn vs(name: &str, fields: Vec<Value>) -> Value {
 }
 /// `&'de str`: serialized as a string, deserialized with `deserialize_str` into a borrowed target
 fn borrowed_str() -> Value {
-    json!({"t": "str", "target": "str"})
+    prim("str_ref")
+}
+/// `#[serde(borrow)] Cow<'de, str>`: `deserialize_str` with a visitor that borrows when it is handed a borrowed string
+fn cow_str() -> Value {
+    prim("cow_str")
+}
+/// `#[serde(borrow, with = "serde_bytes")] &'de [u8]`: `serialize_bytes`, `deserialize_bytes` into a borrowed target
+fn borrowed_bytes() -> Value {
+    prim("bytes_ref")
 }
 /// `#[serde(with = "serde_bytes")]` on `Vec<u8>` / `ByteBuf`: `serialize_bytes`, owned buffer back
 fn byte_buf() -> Value {
@@ -123,7 +134,7 @@ impl<'a> Describe for &'a str {
 /// `&'de [u8]` without serde_bytes: the std `Serialize` for slices issues a SEQUENCE of u8, `Deserialize` asks for bytes
 impl<'a> Describe for &'a [u8] {
     fn ty() -> Value {
-        json!({"t": "vec", "a": prim("u8"), "de": {"t": "bytes", "target": "bytes"}})
+        prim("bytes_seq")
     }
 }
 impl<T: Describe> Describe for Option<T> {
@@ -179,15 +190,8 @@ impl<T: Describe> Describe for serde_arrow::utils::Item<T> {
 }
 
 /// the model's `toTarget` (lean/SaModel/Roundtrip/Bridge.lean) on a description, in the descriptor language of dynde.rs; the
-/// driver recomputes it with the Lean function and refuses a difference (`roundtrip/bridge/target-…`).  A `"target"`
-/// override (borrowed position) wins: such a type is outside the grammar.
+/// driver recomputes it with the Lean function and refuses a difference (`roundtrip/bridge/target-…`).
 pub fn to_target(t: &Value) -> Value {
-    if let Some(de) = t.get("de") {
-        return to_target(de);
-    }
-    if let Some(o) = t.get("target") {
-        return o.clone();
-    }
     let all = |a: &Value| -> Vec<Value> { a.as_array().map(|a| a.iter().map(to_target).collect()).unwrap_or_default() };
     let fields = |a: &Value| -> Vec<Value> {
         a.as_array().map(|a| a.iter().map(|e| json!([e[0], to_target(&e[2])])).collect()).unwrap_or_default()
@@ -195,6 +199,8 @@ pub fn to_target(t: &Value) -> Value {
     match t["t"].as_str().unwrap_or("") {
         "str" => json!("string"),
         "bytes" => json!("byte_buf"),
+        "str_ref" | "cow_str" => json!("str"),
+        "bytes_ref" | "bytes_seq" => json!("bytes"),
         "option" => json!({"option": to_target(&t["a"])}),
         "vec" => json!({"seq": to_target(&t["a"])}),
         "tuple" => json!({"tuple": all(&t["a"])}),
@@ -1295,7 +1301,7 @@ pub struct BorrowBytes<'a> {
 
 impl<'a> Describe for BorrowBytes<'a> {
     fn ty() -> Value {
-        st("BorrowBytes", vec![f("b", d::<&[u8]>()), f("w", json!({"t": "bytes", "target": "bytes"}))])
+        st("BorrowBytes", vec![f("b", d::<&[u8]>()), f("w", borrowed_bytes())])
     }
 }
 
@@ -1322,7 +1328,7 @@ impl<'a> Describe for BorrowBytesOpt<'a> {
                 f("o", d::<Option<&[u8]>>()),
                 f("v", d::<Vec<Option<&[u8]>>>()),
                 f("t", d::<(Option<&[u8]>, u8)>()),
-                f("w", json!({"t": "option", "a": {"t": "bytes", "target": "bytes"}})),
+                f("w", json!({"t": "option", "a": borrowed_bytes()})),
             ],
         )
     }
@@ -1340,7 +1346,7 @@ impl<'a> Describe for BorrowCow<'a> {
     fn ty() -> Value {
         // `#[serde(borrow)]` on exactly `Cow<str>`: `deserialize_str` with a visitor that borrows when it can; below an Option
         // serde does not special-case it: the std impl of `Cow` (through `String`)
-        st("BorrowCow", vec![f("c", borrowed_str()), f("o", d::<Option<String>>())])
+        st("BorrowCow", vec![f("c", cow_str()), f("o", d::<Option<String>>())])
     }
 }
 
